@@ -415,6 +415,71 @@ static int ossl_verify(const CurveDef &c, const Bytes &pub, const Bytes &hash, c
 	return ok;
 }
 
+// Signatures whose nonce point R has an abscissa in [n, p-1], so that r = x(R) - n: the reduction modulo n at the
+// end of verification matters (probability 2^-128 .. 2^-260 for signatures made the ordinary way).  Built backwards:
+// pick x0 = n + j on the curve, R = (x0, y0), r = j, any s and hash, and the public key Q = r^-1 (s R - e G).
+static void k_ecdsa_high_xr(Tape &t)
+{
+	CurveDef &c = CURVES[t.u8() % 3];
+	auto iv = impls_for(c.id);
+	const HDef &h = HS[t.u8() % 6];
+	Bytes hash = t.filled(h.len);
+	BN_CTX_start(bnctx);
+	BIGNUM *x0 = BN_CTX_get(bnctx), *r = BN_CTX_get(bnctx), *sv = BN_CTX_get(bnctx), *e = BN_CTX_get(bnctx), *ri = BN_CTX_get(bnctx), *u = BN_CTX_get(bnctx), *w = BN_CTX_get(bnctx);
+	PT R(c), Q(c), T1(c);
+	BN_copy(x0, c.order);
+	BN_add_word(x0, 1 + t.u16());
+	bool found = false;
+	for (int i = 0; i < 400 && !found; i++) {
+		BN_add_word(x0, 1);
+		ERR_clear_error();
+		if (BN_cmp(x0, c.p) < 0 && EC_POINT_set_compressed_coordinates(c.grp, R.p, x0, t.u8() & 1, bnctx) == 1) found = true;
+	}
+	ERR_clear_error();
+	if (!found) failf("harness: no abscissa in [n, p-1] found");
+	BN_mod(r, x0, c.order, bnctx);
+	Bytes sb = t.filled((size_t)BN_num_bytes(c.order) + 8);
+	BN_bin2bn(sb.data(), (int)sb.size(), sv);
+	BN_copy(w, c.order); BN_sub_word(w, 1);
+	BN_mod(sv, sv, w, bnctx); BN_add_word(sv, 1);
+	// e = leftmost min(hashbits, orderbits) bits of the hash
+	BN_bin2bn(hash.data(), (int)hash.size(), e);
+	int hb = (int)hash.size() * 8, ob = BN_num_bits(c.order);
+	if (hb > ob) BN_rshift(e, e, hb - ob);
+	BN_mod_inverse(ri, r, c.order, bnctx);
+	// Q = ri * (s R - e G)
+	BN_mod_mul(u, sv, ri, c.order, bnctx);                 // s / r
+	BN_mod_mul(w, e, ri, c.order, bnctx);
+	BN_sub(w, c.order, w); BN_mod(w, w, c.order, bnctx);   // -e / r
+	EC_POINT_mul(c.grp, Q.p, w, R.p, u, bnctx);            // w*G + u*R
+	if (EC_POINT_is_at_infinity(c.grp, Q.p)) { BN_CTX_end(bnctx); stats.eval(); return; }
+	Bytes pub = point_bytes(c, Q.p);
+	int ov = ossl_verify(c, pub, hash, r, sv);
+	VF_CHECK(ov == 1, "harness: OpenSSL rejects the constructed signature with x(R) >= n (%s, hash %zu bytes)", c.name, hash.size());
+	size_t ol = (size_t)BN_num_bytes(c.order);
+	Bytes raw = bn2b(r, ol), s2 = bn2b(sv, ol);
+	raw.insert(raw.end(), s2.begin(), s2.end());
+	Bytes a1(raw.size() + 16);
+	memcpy(a1.data(), raw.data(), raw.size());
+	size_t al = br_ecdsa_raw_to_asn1(a1.data(), raw.size());
+	br_ec_public_key pk = { c.id, pub.data(), pub.size() };
+	std::vector<const ImplDef *> two = { iv[t.u8() % iv.size()], iv[t.u8() % iv.size()] };
+	for (auto *im : two) for (const VrfyImpl &v0 : VERIFIERS) {
+		VrfyImpl vi = v0;
+		if (!vi.raw) { vi.raw = br_ecdsa_vrfy_raw_get_default(); vi.asn1 = br_ecdsa_vrfy_asn1_get_default(); }
+		std::string desc = fmt("ecdsa_%s_vrfy over %s, %s, hash %zu bytes, signature with x(R) = n + r (r has %d bits)", vi.name, im->name, c.name, hash.size(), BN_num_bits(r));
+		VF_CHECK(vi.raw(im->impl, hash.data(), hash.size(), &pk, raw.data(), raw.size()) == 1, "%s: vrfy_raw rejects a signature OpenSSL accepts", desc.c_str());
+		VF_CHECK(vi.asn1(im->impl, hash.data(), hash.size(), &pk, a1.data(), al) == 1, "%s: vrfy_asn1 rejects a signature OpenSSL accepts", desc.c_str());
+		Bytes bad = raw;
+		bad[bad.size() - 1] ^= 1;
+		VF_CHECK(vi.raw(im->impl, hash.data(), hash.size(), &pk, bad.data(), bad.size()) == 0, "%s: vrfy_raw accepts it with s altered", desc.c_str());
+	}
+	BN_CTX_end(bnctx);
+	stats.cls("ecdsa:x(R)-not-below-n");
+	stats.eval(fmt("hixr/%d/%zu", c.id, hash.size()));
+	if (stats.want_sample()) stats.sample(fmt("ecdsa %s: constructed signature with x(R) in [n, p-1] verifies with every verifier x implementation", c.name));
+}
+
 static void k_ecdsa(Tape &t)
 {
 	CurveDef &c = CURVES[t.u8() % 3];
@@ -643,7 +708,9 @@ static void k_keygen(Tape &t)
 
 void target_run(Tape &t)
 {
-	switch (t.u8() % 16) {
+	unsigned sel0 = t.u8();
+	if (sel0 >= 240) { k_ecdsa_high_xr(t); return; }
+	switch (sel0 % 16) {
 	case 0: case 1: case 2: case 3: k_mul(t); break;
 	case 4: case 5: case 6: k_muladd(t); break;
 	case 7: case 8: k_invalid(t); break;
